@@ -41,6 +41,8 @@ CONSTANTS Types,      \* subset of {"get","set","result","error","absent","garba
                       \* "dup" = the id of the previous IQ whose id kind was not "pending"
           Peers,      \* sender classes the client may have sent a tracked request to (subset of Froms \ {"Empty"})
           ExtSets,    \* {"none","default","all","allrev"}
+          Deferred,   \* BOOLEAN: the deferred-reply machinery (file offers) is part of the behaviours
+          MaxHosts,   \* most stream hosts in one hosts offer
           MaxHist
 
 VARIABLES ext,        \* installed extension set of this client
@@ -48,9 +50,14 @@ VARIABLES ext,        \* installed extension set of this client
           pending,    \* "none", or the sender class of the peer the client's outstanding tracked request went to
           last,       \* outcome of the last IQ: [t, replies, tdone] (who handled it is not kept: it is a function
                       \* of the step, see Dispatch, and keeping it only multiplies the states)
+          \* --- deferred replies (see the section "requests whose reply is deferred") ---
+          job,        \* incoming file-transfer job: "none","offered","started","transfer","finished"
+          conn,       \* stream hosts still to be tried, the one being connected to included (0: no attempt pending)
+          rq,         \* [DTags -> [st, n]]: deferred requests, st in {"none","pending","done"}, n = replies sent so far
           hist
 
-mvars == <<ext, open, pending, last>>
+dvars == <<job, conn, rq>>
+mvars == <<ext, open, pending, last, dvars>>
 vars  == <<mvars, hist>>
 
 Req  == {"get", "set"}
@@ -157,11 +164,15 @@ DispatchTable == [x \in ExtSets, t \in Types, p \in Payloads, f \in Froms |-> Di
 
 NoIq == [t |-> "none", replies |-> 0, tdone |-> FALSE]
 
+DTags == {"offer", "hosts", "second"}
+NoRq == [g \in DTags |-> [st |-> "none", n |-> 0]]
+
 Init ==
     /\ ext \in ExtSets
     /\ open = TRUE
     /\ pending = "none"
     /\ last = NoIq
+    /\ job = "none" /\ conn = 0 /\ rq = NoRq
     /\ hist = <<>>
 
 Log(r) == hist' = Append(hist, r)
@@ -171,7 +182,7 @@ SendRequest(peer) ==
     /\ open /\ pending = "none"
     /\ pending' = peer
     /\ Log([a |-> "SendRequest", peer |-> peer])
-    /\ UNCHANGED <<ext, open, last>>
+    /\ UNCHANGED <<ext, open, last, dvars>>
 
 \* stage 0, OutgoingIqManager::handleStanza: is this <iq/> the response to the outstanding request?
 IsTrackedResponse(t, f, k) ==
@@ -192,10 +203,75 @@ Recv(t, p, f, k) ==
             /\ last' = [t |-> t, replies |-> IF d.act = "Reply" THEN 1 ELSE 0, tdone |-> FALSE]
             /\ open' = (d.act # "Reject")
             /\ UNCHANGED pending
-    /\ UNCHANGED ext
+    /\ UNCHANGED <<ext, dvars>>
+
+(***************************************************************************)
+(* Requests whose reply is deferred.  Two handlers of the bundled managers  *)
+(* return true for a request and answer it later, from a slot that runs     *)
+(* when something else has happened (both in QXmppTransferManager, enabled  *)
+(* when the application listens to fileReceived()):                         *)
+(*  "offer"  the SI file offer (IQ set): answered when the application      *)
+(*           accepts (result) or declines (error) the job it was handed;    *)
+(*  "hosts"  the XEP-0065 bytestreams IQ set with <streamhost/>s for an     *)
+(*           accepted job: the client starts a TCP/SOCKS5 connection to the *)
+(*           first host and answers when the attempt ends -- result with    *)
+(*           <streamhost-used/> when a host completes the handshake, error  *)
+(*           item-not-found once the host list is exhausted.                *)
+(* While a reply is pending, local events happen: the application aborts    *)
+(* the job, the peer sends a *second* hosts offer for the same stream       *)
+(* ("second": answered at once, the attempt in progress is not disturbed),  *)
+(* ordinary IQs arrive.  Intended: whatever happens in between, each of the *)
+(* requests gets exactly one reply once its attempt / decision has ended    *)
+(* (the stream staying up).  The generic task-returning handleIqRequests()  *)
+(* path cannot be instantiated in this tree (see docs/C08.md) and has no    *)
+(* bundled user.                                                            *)
+(***************************************************************************)
+Answered(g)  == rq' = [rq EXCEPT ![g] = [st |-> "done", n |-> rq[g].n + 1]]
+Deferring(g) == rq' = [rq EXCEPT ![g] = [st |-> "pending", n |-> 0]]
+DStep(r) == open /\ Deferred /\ Log(r) /\ UNCHANGED <<ext, open, pending, last>>
+
+\* streamInitiationSetReceived: a job is created and handed to the application (fileReceived)
+OfferSI ==
+    /\ DStep([a |-> "OfferSI"]) /\ job = "none"
+    /\ job' = "offered" /\ Deferring("offer") /\ UNCHANGED conn
+\* QXmppTransferJob::accept -> _q_jobStateChanged: SI result
+AppAccept ==
+    /\ DStep([a |-> "AppAccept"]) /\ job = "offered"
+    /\ job' = "started" /\ Answered("offer") /\ UNCHANGED conn
+\* QXmppTransferJob::abort in the offer state -> _q_jobStateChanged: error forbidden
+AppDecline ==
+    /\ DStep([a |-> "AppDecline"]) /\ job = "offered"
+    /\ job' = "finished" /\ Answered("offer") /\ UNCHANGED conn
+\* byteStreamSetReceived for the started job -> connectToHosts: connection attempt to the first of nh hosts
+HostsOffer(nh) ==
+    /\ DStep([a |-> "HostsOffer", nh |-> nh]) /\ job = "started" /\ conn = 0 /\ rq["hosts"].st = "none"
+    /\ conn' = nh /\ Deferring("hosts") /\ UNCHANGED job
+\* a second hosts offer for the same stream while the attempt is pending: refused at once
+SecondHosts ==
+    /\ DStep([a |-> "SecondHosts"]) /\ conn > 0 /\ rq["second"].st = "none"
+    /\ Answered("second") /\ UNCHANGED <<job, conn>>
+\* the application aborts the job (QXmppTransferJob::abort); a pending connection attempt still ends later
+AbortJob ==
+    /\ DStep([a |-> "AbortJob"]) /\ job \in {"started", "transfer"}
+    /\ job' = "finished" /\ UNCHANGED <<conn, rq>>
+\* _q_candidateReady: the stream host completed the SOCKS5 handshake
+HostAccepts ==
+    /\ DStep([a |-> "HostAccepts"]) /\ conn > 0
+    /\ conn' = 0 /\ Answered("hosts")
+    /\ job' = IF job = "started" THEN "transfer" ELSE job
+\* _q_candidateDisconnected: the stream host dropped the connection; next host, or give up
+HostCloses ==
+    /\ DStep([a |-> "HostCloses"]) /\ conn > 0
+    /\ conn' = conn - 1
+    /\ IF conn = 1 THEN Answered("hosts") /\ job' = "finished"
+                   ELSE UNCHANGED <<rq, job>>
+
+DNext == \/ OfferSI \/ AppAccept \/ AppDecline \/ SecondHosts \/ AbortJob \/ HostAccepts \/ HostCloses
+         \/ \E nh \in 1..MaxHosts : HostsOffer(nh)
 
 Next == \/ \E t \in Types : \E p \in Payloads : \E f \in Froms : \E k \in IdKinds : Recv(t, p, f, k)
         \/ \E peer \in Peers : SendRequest(peer)
+        \/ DNext
 
 Spec == Init /\ [][Next]_vars
 
@@ -227,7 +303,19 @@ SingleOwner ==
     \A x \in ExtSets : \A t \in Types : \A p \in Payloads : \A f \in Froms :
         Cardinality({Row(Order(x)[k], t, p, f) : k \in Claimers(x, t, p, f)}) <= 1
 
+\* over observable quantities: due = the decision / connection attempt the reply waits for has ended,
+\* n = replies (result/error with the request's id, to its sender) sent so far
+P_DeferredAnswered(due, n) == due => n = 1
+P_AtMostOneReply(n)        == n <= 1
+
+DeferredAnswered == \A g \in DTags : /\ P_DeferredAnswered(rq[g].st = "done", rq[g].n)
+                                     /\ P_AtMostOneReply(rq[g].n)
+                                     /\ (rq[g].st = "pending" => rq[g].n = 0)
+\* nothing stays pending once the job is over and no connection attempt is running
+NothingLeftPending == (job = "finished" /\ conn = 0) => \A g \in DTags : rq[g].st # "pending"
+
 TypeOK ==
+    /\ job \in {"none", "offered", "started", "transfer", "finished"} /\ conn \in 0..MaxHosts
     /\ ext \in ExtSets /\ open \in BOOLEAN
     /\ pending \in {"none"} \cup Peers
     /\ last.replies \in {0, 1} /\ last.tdone \in BOOLEAN
@@ -243,6 +331,7 @@ Reinit(x) ==
     /\ open' = TRUE
     /\ pending' = "none"
     /\ last' = NoIq
+    /\ job' = "none" /\ conn' = 0 /\ rq' = NoRq
     /\ hist' = <<>>
 
 Bound == Len(hist) <= MaxHist
@@ -251,5 +340,6 @@ View  == mvars
 KeepPending == (pending = "none") => (pending' # "none")
 
 TourView == <<ext, open>>     \* tour: one source state per extension set
+DeferView == <<ext, open, dvars>>     \* tour of the deferred-reply machinery
 PendView == <<ext, open, pending>>   \* tour with an outstanding request: one source state per extension set and peer
 =============================================================================
